@@ -359,6 +359,9 @@ def ecma_to_py(pattern):
             in_cls = True
         elif c == "$":
             out.append("\\Z"); i += 1; continue
+        elif c == ".":
+            # ECMA-262 `.` excludes the four line terminators, Python's only \n; `\S`/`\s` agree on the pool's probes
+            out.append("[^\\n\\r\\u2028\\u2029]"); i += 1; continue
         out.append(c); i += 1
     return "".join(out)
 
@@ -392,6 +395,17 @@ PATTERNS = {
             lambda rng, s: rng.choice(["y" + s[1:], "x_" + s[2:], "X" + s[1:]])),
     "^[a-f0-9]{2,8}$": (2, 8, lambda rng, n: _rs(rng, "abcdef" + _DIGITS, n),
                         lambda rng, s: s[:-1] + rng.choice("gG-")),
+    # patterns that look vacuous but are not: `.` does not match a line terminator, `$` (no multiline flag) only the end
+    "^.*$": (0, None, lambda rng, n: _any_chars(rng, n),
+             lambda rng, s: (lambda k: s[:k] + rng.choice("\n\r\u2028") + s[k + 1:])(rng.randrange(len(s)))),
+    "^(.*)$": (0, None, lambda rng, n: _any_chars(rng, n),
+               lambda rng, s: (lambda k: s[:k] + "\n" + s[k + 1:])(rng.randrange(len(s)))),
+    "^.+$": (1, None, lambda rng, n: _any_chars(rng, n),
+             lambda rng, s: (lambda k: s[:k] + rng.choice("\n\r") + s[k + 1:])(rng.randrange(len(s)))),
+    "^\\S+$": (1, None, lambda rng, n: _rs(rng, _LOWER + "XYZ_-09", n - 1) + rng.choice(["\u00e9", "z"]),
+               lambda rng, s: (lambda k: s[:k] + rng.choice(" \t\u00a0") + s[k + 1:])(rng.randrange(len(s)))),
+    "^[^/]+$": (1, None, lambda rng, n: _any_chars(rng, n),
+                lambda rng, s: (lambda k: s[:k] + "/" + s[k + 1:])(rng.randrange(len(s)))),
 }
 SAFE_PATTERNS = list(PATTERNS)
 
